@@ -642,9 +642,14 @@ def lb_observe(w, accs, key, base):
     if len(cands) != 1:
         return
     p, a = cands[0], parts[0]
+    # circumstances recorded for known-finding matching only (never used to decide ok): whether the ListBox's
+    # own criterion for item-granular ("relative") scrolling holds for the size ScrollBar passes to it, and how
+    # many rows the current first item has (a position inside the first item has 0 < p < first_item_rows)
+    first_item_rows = len(canvas_rows(type(w.walker[0]).render(w.walker[0], (cv,), False)))
     accs["C20/listbox-thumb-top"].case(
         key, (a == 0) == (p == 0),
-        lambda: det | {"parts": parts, "first_visible_row": p, "why": f"trough above thumb={a} rows while the view starts at content row {p}"}, sample=sample,
+        lambda: det | {"parts": parts, "first_visible_row": p, "relative_scroll": len(w.walker) > 3 * h, "first_item_rows": first_item_rows,
+                       "why": f"trough above thumb={a} rows while the view starts at content row {p}"}, sample=sample,
     )
     tab = w.tops.setdefault((w.version, c, h), {})
     lower = max((max(v) for q, v in tab.items() if q < p), default=-1)
